@@ -59,7 +59,10 @@ class P:
         raise Dead()
     if typ == 'NUMBER':
       self.take()
-      v = ast.literal_eval(s)
+      try:
+        v = ast.literal_eval(s)      # the tokenizer lets 007 / 0_7 through; Python does not
+      except Exception:
+        raise Dead()
       return -v if neg else v
     if typ == 'STRING':
       pieces = []
